@@ -291,6 +291,22 @@ func c08Run(r *Run) {
 			}
 		}
 	}
+	// every implements list a decision consumes is followed into the interfaces it names: comparing the
+	// names alone (impl == target, slices.Contains) misses an interface reached through the parents of
+	// an implemented interface. Reads are grouped by function and receiver expression; a group is fine
+	// when one of its consuming reads steps into the interfaces (a call whose closure reads GetExtends).
+	{
+		seenFn := map[*ast.FuncDecl]bool{}
+		for _, e := range entries {
+			for _, f := range closure(e.p, e.fd) {
+				if seenFn[f] {
+					continue
+				}
+				seenFn[f] = true
+				c08ImplementsFollowed(r, e.p, f, closure)
+			}
+		}
+	}
 	// no private re-implementation elsewhere: functions outside the closures that loop on GetExtend and compare names
 	// are reported for review (informational)
 	known := map[*ast.FuncDecl]bool{}
@@ -812,4 +828,191 @@ func c08Run(r *Run) {
 		}
 	}
 	_ = sort.Strings
+}
+
+// c08ImplementsFollowed: see the call site. closure gives the same-package static call closure of a function.
+func c08ImplementsFollowed(r *Run, p *packages.Package, fd *ast.FuncDecl, closure func(*packages.Package, *ast.FuncDecl) []*ast.FuncDecl) {
+	info := p.TypesInfo
+	parents := map[ast.Node]ast.Node{}
+	var stack []ast.Node
+	ast.Inspect(fd.Body, func(n ast.Node) bool {
+		if n == nil {
+			stack = stack[:len(stack)-1]
+			return true
+		}
+		if len(stack) > 0 {
+			parents[n] = stack[len(stack)-1]
+		}
+		stack = append(stack, n)
+		return true
+	})
+	// local closures: variable → literal
+	litOf := map[types.Object]*ast.FuncLit{}
+	ast.Inspect(fd.Body, func(n ast.Node) bool {
+		if as, ok := n.(*ast.AssignStmt); ok && len(as.Lhs) == len(as.Rhs) {
+			for i, l := range as.Lhs {
+				if id, ok := l.(*ast.Ident); ok {
+					if lit, ok := ast.Unparen(as.Rhs[i]).(*ast.FuncLit); ok {
+						o := info.Defs[id]
+						if o == nil {
+							o = info.Uses[id]
+						}
+						if o != nil {
+							litOf[o] = lit
+						}
+					}
+				}
+			}
+		}
+		return true
+	})
+	var follows func(n ast.Node, depth int) bool
+	follows = func(n ast.Node, depth int) bool {
+		if n == nil || depth > 3 {
+			return false
+		}
+		found := false
+		ast.Inspect(n, func(m ast.Node) bool {
+			if found {
+				return false
+			}
+			switch x := m.(type) {
+			case *ast.Ident:
+				if lit := litOf[info.Uses[x]]; lit != nil && ast.Node(lit) != n {
+					if follows(lit.Body, depth+1) {
+						found = true
+					}
+				}
+			case *ast.CallExpr:
+				if se, ok := ast.Unparen(x.Fun).(*ast.SelectorExpr); ok && se.Sel.Name == "GetExtends" {
+					found = true
+					return false
+				}
+				if cal := calleeFunc(info, x); cal != nil {
+					if cp, cfd := r.declAnywhere(cal); cfd != nil {
+						for _, g := range closure(cp, cfd) {
+							ast.Inspect(g.Body, func(k ast.Node) bool {
+								if c, ok := k.(*ast.CallExpr); ok {
+									if se, ok := ast.Unparen(c.Fun).(*ast.SelectorExpr); ok && se.Sel.Name == "GetExtends" {
+										found = true
+									}
+								}
+								return !found
+							})
+							if found {
+								break
+							}
+						}
+					}
+				}
+			}
+			return !found
+		})
+		return found
+	}
+	type group struct {
+		consumes, followed bool
+		pos                token.Pos
+	}
+	groups := map[string]*group{}
+	var order []string
+	note := func(recv string, pos token.Pos, followed bool) {
+		g := groups[recv]
+		if g == nil {
+			g = &group{pos: pos}
+			groups[recv] = g
+			order = append(order, recv)
+		}
+		g.consumes = true
+		if followed {
+			g.followed = true
+		}
+	}
+	ast.Inspect(fd.Body, func(n ast.Node) bool {
+		c, ok := n.(*ast.CallExpr)
+		if !ok {
+			return true
+		}
+		se, ok := ast.Unparen(c.Fun).(*ast.SelectorExpr)
+		if !ok || se.Sel.Name != "GetImplements" || len(c.Args) != 0 {
+			return true
+		}
+		recv := exprStr(se.X)
+		par := parents[c]
+		for {
+			if pe, ok := par.(*ast.ParenExpr); ok {
+				par = parents[pe]
+				continue
+			}
+			break
+		}
+		switch x := par.(type) {
+		case *ast.RangeStmt:
+			if ast.Unparen(x.X) == ast.Expr(c) {
+				note(recv, c.Pos(), follows(x.Body, 0))
+			}
+		case *ast.CallExpr:
+			cal := calleeFunc(info, x)
+			if cal != nil && cal.Pkg() != nil && cal.Pkg().Path() == "slices" && len(x.Args) == 2 && ast.Unparen(x.Args[0]) == ast.Expr(c) {
+				switch cal.Name() {
+				case "Contains", "Index":
+					note(recv, c.Pos(), false)
+				case "ContainsFunc", "IndexFunc":
+					note(recv, c.Pos(), follows(x.Args[1], 0))
+				}
+			} else if cal != nil {
+				// handed to a function of the module: followed when that function's closure steps into interfaces
+				if _, cfd := r.declAnywhere(cal); cfd != nil {
+					if follows(x, 0) {
+						note(recv, c.Pos(), true)
+					}
+				}
+			}
+		case *ast.AssignStmt:
+			// impls := X.GetImplements(); for _, i := range impls { … }
+			for i, rh := range x.Rhs {
+				if ast.Unparen(rh) != ast.Expr(c) || i >= len(x.Lhs) {
+					continue
+				}
+				id, ok := x.Lhs[i].(*ast.Ident)
+				if !ok {
+					continue
+				}
+				o := info.Defs[id]
+				if o == nil {
+					o = info.Uses[id]
+				}
+				ast.Inspect(fd.Body, func(m ast.Node) bool {
+					switch y := m.(type) {
+					case *ast.RangeStmt:
+						if rid, ok := ast.Unparen(y.X).(*ast.Ident); ok && info.Uses[rid] == o {
+							note(recv, c.Pos(), follows(y.Body, 0))
+						}
+					case *ast.CallExpr:
+						if cal := calleeFunc(info, y); cal != nil && cal.Pkg() != nil && cal.Pkg().Path() == "slices" && len(y.Args) == 2 {
+							if rid, ok := ast.Unparen(y.Args[0]).(*ast.Ident); ok && info.Uses[rid] == o {
+								switch cal.Name() {
+								case "Contains", "Index":
+									note(recv, c.Pos(), false)
+								case "ContainsFunc", "IndexFunc":
+									note(recv, c.Pos(), follows(y.Args[1], 0))
+								}
+							}
+						}
+					}
+					return true
+				})
+			}
+		}
+		return true
+	})
+	for _, recv := range order {
+		g := groups[recv]
+		key := funcKey(p, fd) + "#implements-followed:" + recv
+		if g.followed {
+			r.ok(key, g.pos, "the implements list of "+recv+" is followed into the interfaces it names (their parents are consulted)")
+		} else {
+			r.bad(key, g.pos, "the implements list of "+recv+" is only compared by name: an interface reached through the parents of an implemented interface is missed for this class (instanceof / type hint / catch disagree with the declared hierarchy)")
+		}
+	}
 }
